@@ -237,6 +237,19 @@ def run(ctx):
                 k0 = dt.resolve_const(u.ser, ents[0][1]["args"][1])
                 if k0 and "str" in k0:
                     ser_consts.add(k0["str"])
+    nun = 0
+    for u in gentypes.find_unions(ct, F):
+        if u.visit_map is None:
+            continue
+        insts, probs = gentypes.union_agreement(u, ct, F)
+        who = f"{u.config}/{u.path.split('::')[-1]}"
+        for x in insts:
+            nun += 1
+            ctx.ok("R2.3", u.visit_map.loc(), f"{who}: member-first document accepted only if {x}")
+        for k_, w_ in probs:
+            nun += 1
+            ctx.violation("R2.3", u.visit_map.loc(), f"{u.path}|union|{k_}", f"{who}: a union document whose `type` and member disagree must be rejected in either member order — {w_}")
+    ctx.floor("R2.3", "unions whose type/member agreement check was decided", nun, 4)
     ctx.check(consts == {"type"} and ser_consts <= {"type"} and nvis == 2 and ser_consts, "R2.3", "conjure-object/src/private.rs", "union|discriminator-constant",
               f"union discriminator key: written {sorted(ser_consts)}, matched by the field visitors {sorted(consts)}; must be the single constant \"type\" on both sides", instance="discriminator \"type\" on both sides")
 
